@@ -247,9 +247,18 @@ def r4(ctx):
 
     def is_value(sl, t):
         g = sl.find_calls(r"HashMap::<K, V, S, A>::get$")
-        return bool(g) and sl.has_field("headers") and 2 in sl.params
+        return bool(g) and sl.reads_field("headers") and 2 in sl.params
 
     _, names = must_contrib(b, acc, is_name)
+    if not names:
+        # the (name, values) pair travels through an iterator pipeline: judge the name component on its own
+        for cb_, t_, ai_, sl_ in acc_contribs(b, acc):
+            for i_, a_ in enumerate(t_["args"]):
+                if i_ == ai_:
+                    continue
+                cs_ = element_component(b, a_)
+                if cs_ is not None and is_name(cs_, t_):
+                    names.append(cb_)
     _, values = must_contrib(b, acc, is_value)
     if not names:
         yield VIOL("C01-R4", "canonical_request/header-names", "no append of a signed header's name", where=loc(b.j["span"]))
@@ -285,9 +294,23 @@ def r4(ctx):
                 firsts.append((vb_, vsl_))
         okv = False
         vb = values[0]
+        VAL_ITEM = r"Iter<'_, std::vec::Vec<u8>>"
+
+        def value_chain(vb_):
+            """the part of the append's slice that concerns the VALUE list: back to the header lookup / to the outer
+            (header-name) iteration, not beyond - adaptors on the list of header names do not filter values"""
+            stop = lambda t_: bool(re.search(r"HashMap::<K, V, S, A>::get$", t_.get("callee", ""))) or (bool(re.search(r"Iterator::next$", t_.get("callee", ""))) and not re.search(VAL_ITEM, t_.get("resolved_full", "")))
+            return b.slice_op(b.term(vb_)["args"][1], stop_at_calls=stop)
+
+        # sibling idiom: all values rendered at once by `values.join(sep)` / `concat()`
+        for vb_, vsl_ in firsts:
+            ch = value_chain(vb_)
+            if ch.has_call(r"slice::<impl \[T\]>::(join|concat)$") and not ch.has_call(r"Iterator::(skip|take|step_by|skip_while|take_while|filter|filter_map)$|slice::<impl \[T\]>::(first|last|get|split_\w+)$|ops::Index::index$"):
+                okv, vb = True, vb_
         for vb_, some, vsl_ in loops:
             if not b.postdominates(vb_, some):
                 continue
+            vsl_ = value_chain(vb_)
             if not vsl_.has_call(r"split_first$|split_at$|split_last$|Iterator::(skip|take|step_by|skip_while|take_while|filter|filter_map)$|slice::<impl \[T\]>::(first|last|get)$"):
                 okv, vb = True, vb_  # the loop runs over the whole value list
             elif sf_parts(vsl_) == {1} and not vsl_.has_call(r"Iterator::(skip|take|step_by|skip_while|take_while|filter|filter_map)$"):
@@ -304,7 +327,7 @@ def r4(ctx):
     # canonical_query_string covers query_parameters
     q = ctx.fn("canonical::CanonicalRequest::canonical_query_string")
     qs = q.slice([0])
-    if not (qs.has_call(r"canonical::canonicalize_query_to_string$") and qs.has_field("query_parameters")):
+    if not (qs.has_call(r"canonical::canonicalize_query_to_string$") and (qs.has_field("query_parameters") or qs.has_call(r"CanonicalRequest::query_parameters$"))):
         yield VIOL("C01-R4", "canonical_query_string/source", "canonical_query_string is not canonicalize_query_to_string(&self.query_parameters)", where=loc(q.j["span"]))
     else:
         yield PASS("C01-R4", "canonical_query_string/source", "= canonicalize_query_to_string(&self.query_parameters)", [loc(q.j["span"])])
@@ -332,7 +355,7 @@ def r5(ctx):
         "request_method": lambda sl: sl.has_field("method") and parts in sl.locals,
         "canonical_path": lambda sl: sl.has_call(r"canonical::canonicalize_uri_path$") and sl.has_call(r"Uri::path$") and parts in sl.locals,
         "query_parameters": lambda sl: sl.has_call(r"canonical::query_string_to_normalized_map$") and sl.has_call(r"Uri::query$") and parts in sl.locals,
-        "headers": lambda sl: sl.has_call(r"canonical::normalize_headers$") and sl.has_field("headers") and parts in sl.locals,
+        "headers": lambda sl: sl.has_call(r"canonical::normalize_headers$") and sl.reads_field("headers") and parts in sl.locals,
         "body_sha256": lambda sl: sl.has_call(r"crypto::sha256_hex$") and body_p in sl.locals,
     }
     for f, pred in want.items():
